@@ -11,6 +11,7 @@ import tempfile
 
 from mc.build import ci as B
 from mc.core import explorer
+from mc.core.util import exc_name
 
 ID = "C01"
 LEVEL = "model_checking"
@@ -69,13 +70,13 @@ def oracle(spec, obj, via_file=False, doc_extras=False):
     try:
         text = obj.dumps()
     except (ValueError, TypeError) as exc:
-        return "refused", ["dumps: %s" % type(exc).__name__]
+        return "refused", ["dumps: %s" % exc_name(exc)]
     want = B.expected_observation(spec, obj.compose.id)
     back = pc.ComposeInfo()
     try:
         back.loads(text)
     except Exception as exc:                                            # noqa
-        return "bad", ["the written file cannot be read back: %s: %s" % (type(exc).__name__, str(exc)[:160])]
+        return "bad", ["the written file cannot be read back: %s: %s" % (exc_name(exc), str(exc)[:160])]
     d = diff(B.observe(back), want)
     if d:
         problems.append("re-read object differs from what was written (observed != expected): " + "; ".join(d))
@@ -84,7 +85,7 @@ def oracle(spec, obj, via_file=False, doc_extras=False):
         if text2 != text:
             problems.append("second write is not byte-identical")
     except Exception as exc:                                            # noqa
-        problems.append("re-read object cannot be written: %s" % type(exc).__name__)
+        problems.append("re-read object cannot be written: %s" % exc_name(exc))
     if via_file:
         tmp = tempfile.mkdtemp(prefix="c01-")
         try:
@@ -98,7 +99,7 @@ def oracle(spec, obj, via_file=False, doc_extras=False):
             if diff(B.observe(again), want):
                 problems.append("load(path) object differs from what was written")
         except Exception as exc:                                        # noqa
-            problems.append("file cycle raised %s" % type(exc).__name__)
+            problems.append("file cycle raised %s" % exc_name(exc))
         finally:
             for fn in os.listdir(tmp):
                 os.unlink(os.path.join(tmp, fn))
@@ -112,7 +113,7 @@ def oracle(spec, obj, via_file=False, doc_extras=False):
             if diff(B.observe(up), want):
                 problems.append("upper-cased release type does not load to the same object")
         except Exception as exc:                                        # noqa
-            problems.append("upper-cased release type rejected: %s" % type(exc).__name__)
+            problems.append("upper-cased release type rejected: %s" % exc_name(exc))
     return ("bad" if problems else "ok"), problems
 
 
@@ -133,16 +134,16 @@ def eval_case(case):
             except (ValueError, TypeError):
                 raise
             except Exception as exc:                                    # noqa
-                return {"status": "bad", "problems": ["the parent's written file cannot be read back: %s" % type(exc).__name__]}
+                return {"status": "bad", "problems": ["the parent's written file cannot be read back: %s" % exc_name(exc)]}
             B.apply_obj(obj, case["edits"][-1], spec)
     except (ValueError, TypeError) as exc:
-        return {"status": "refused", "problems": ["build: %s" % type(exc).__name__]}
+        return {"status": "refused", "problems": ["build: %s" % exc_name(exc)]}
     except (KeyError, IndexError, AttributeError) as exc:
         if case["mode"] == "scratch":
             return {"status": "bad", "problems": ["the documented public API could not be used to build the description: %s: %s"
-                                                  % (type(exc).__name__, str(exc)[:120])]}
+                                                  % (exc_name(exc), str(exc)[:120])]}
         return {"status": "bad", "problems": ["the re-read parent object does not hold what was written to it, the next "
-                                              "edit cannot be applied: %s" % type(exc).__name__]}
+                                              "edit cannot be applied: %s" % exc_name(exc)]}
     status, problems = oracle(spec, obj, via_file=shallow and case["mode"] == "scratch",
                               doc_extras=shallow and case["mode"] == "scratch")
     return {"status": status, "problems": problems}
